@@ -26,7 +26,7 @@ RULE = ('per run: target in {exact TT rank 1..4 with random cores, 1/(2+sum(i_k+
         '2..20, non-uniform, including sizes smaller than rank+kick; eps=10^-k, k in 3..10; API in {dmrg_cross, dmrg_cross with start '
         'tensor, function_interpolate univariate, multivariate (+start tensor)}; the user function is the simulator\'s peer: every '
         'request is validated (shape, dtype, index range / membership of the values in the argument tensors) and recorded; global torch '
-        'PRNG seeded per run; primary SVD failures on 25%% of runs (at seeded call indices, or at seeded fractions of the measured number of SVD calls so that late calls fail too); distinct by (api, target, order, eps decade, small-mode flag, '
+        'PRNG seeded per run; primary SVD failures on 25% of runs (at seeded call indices, or at seeded fractions of the measured number of SVD calls so that late calls fail too); distinct by (api, target, order, eps decade, small-mode flag, '
         'start tensor, fault kind)')
 ASSUMPTIONS = ['single-threaded BLAS', 'oracle constant C=10 on the relative error; targets have TT ranks <= 4 or fast-decaying ranks',
                'the peer answers from the exact dense tensor; the clamp that keeps it answering after an invalid request is not part of the oracle']
